@@ -335,8 +335,11 @@ def history_case(draw):
                           st.integers(0, 2**32)))
     actions = draw(st.lists(st.sampled_from(ACTIONS), min_size=0, max_size=4))
     shots = draw(st.sampled_from([1, 5, 16]))
-    use_dask = sim == "P" and draw(st.integers(0, 3)) == 0
-    return {"desc": desc, "seed": seed, "actions": actions, "shots": shots, "use_dask": use_dask}
+    use_dask = sim in ("P", "G") and draw(st.integers(0, 3)) == 0
+    if use_dask and draw(st.booleans()):
+        shots = draw(st.sampled_from([300, 600]))  # beyond any internal batch size
+    return {"desc": desc, "seed": seed, "actions": actions, "shots": shots, "use_dask": use_dask,
+            "via_setter": draw(st.integers(0, 3)) == 0}
 
 
 def do_action(name, desc):
@@ -376,8 +379,15 @@ def do_action(name, desc):
         repr(pq.Config(hbar=1.0))
 
 
-def sample_run(desc, seed, shots, use_dask, actions=()):
-    program, sim = aprogs.build(pq, desc, seed_sequence=seed, use_dask=use_dask)
+def sample_run(desc, seed, shots, use_dask, actions=(), via_setter=False):
+    if via_setter:
+        # the seed is assigned through the public property after the Config was created
+        program, _ = aprogs.build(pq, desc, use_dask=use_dask)
+        config = pq.Config(cutoff=desc["cutoff"], hbar=desc.get("hbar", 2.0), use_dask=use_dask)
+        config.seed_sequence = seed
+        sim = type(_)(d=desc["d"], config=config)
+    else:
+        program, sim = aprogs.build(pq, desc, seed_sequence=seed, use_dask=use_dask)
     for a in actions:
         do_action(a, desc)
     res = sim.execute(program, shots=shots)
@@ -395,9 +405,12 @@ def prop_history(case, ctx):
     with warnings.catch_warnings():
         warnings.simplefilter("ignore")
         try:
-            a = sample_run(desc, seed, shots, case["use_dask"])
-            b = sample_run(desc, seed, shots, case["use_dask"], case["actions"])
+            vs = case.get("via_setter", False)
+            a = sample_run(desc, seed, shots, case["use_dask"], via_setter=vs)
+            b = sample_run(desc, seed, shots, case["use_dask"], case["actions"], via_setter=vs)
             c = sample_run(desc, seed, shots, False) if case["use_dask"] else None
+            if vs:
+                a0 = sample_run(desc, seed, shots, case["use_dask"])
         except NotImplementedCalculation:
             ctx.count("documented_unsupported")
             return
@@ -405,7 +418,15 @@ def prop_history(case, ctx):
     deterministic = len(set(a)) <= 1 and shots > 4
     ctx.case(case, len(case["actions"]) >= 1 and not deterministic,
              [f"hist_{sim}", "seed_special" if seed in (0, 1, 2, 7, 2**31 - 1, 2**63) else "seed_drawn"]
-             + (["dask"] if case["use_dask"] else []))
+             + (["dask"] if case["use_dask"] else [])
+             + (["dask_many_shots"] if case["use_dask"] and shots >= 300 else []))
+    if case.get("via_setter"):
+        cl_extra = "seed_via_setter"
+        ctx.count(cl_extra)
+        if a != a0:
+            raise Violation(f"C11:seed-setter:{sim}:differs-from-constructor-seeding",
+                            f"seed {seed}: Config.seed_sequence = s after construction gives "
+                            f"{a[:3]}, Config(seed_sequence=s) gives {a0[:3]}")
     if a != b:
         culprit = case["actions"]
         raise Violation(f"C11:history:{sim}:samples-depend-on-interleaved-actions",
@@ -418,7 +439,7 @@ def prop_history(case, ctx):
         for _ in range(3):
             with warnings.catch_warnings():
                 warnings.simplefilter("ignore")
-                r = sample_run(desc, seed, shots, True)
+                r = sample_run(desc, seed, shots, True, via_setter=case.get("via_setter", False))
             if r != a:
                 raise Violation(f"C11:dask:{sim}:samples-differ-between-runs",
                                 f"seed {seed}: repeated use_dask=True runs differ")
